@@ -1093,19 +1093,22 @@ func (l *lexer) scanComment() bool {
 	l.hash = true
 	l.mark(0)
 	l.read() // #
+	var esc bool
 	for {
 		r, err := l.read()
 		if err != nil {
 			l.comment(true)
 			return err == io.EOF
 		}
-		if r == '\n' || r == '`' && l.cmdSubst == '`' {
-			// a comment inside backquotes ends at the closing backquote
+		if r == '\n' || r == '`' && l.cmdSubst == '`' && !esc {
+			// a comment inside backquotes ends at the closing backquote,
+			// which is the first one that is not escaped
 			l.unread()
 			l.comment(true)
 			l.mark(0)
 			return true
 		}
+		esc = r == '\\' && !esc
 		l.b.WriteRune(r)
 	}
 }
@@ -1692,7 +1695,7 @@ func (l *lexer) scanCmdSubst(r rune) bool {
 }
 
 func (l *lexer) linebreak() bool {
-	var hash bool
+	var hash, esc bool
 	for {
 		r, err := l.read()
 		if err != nil {
@@ -1700,6 +1703,8 @@ func (l *lexer) linebreak() bool {
 			return false
 		}
 
+		bq := hash && l.cmdSubst == '`' && !esc
+		esc = hash && r == '\\' && !esc
 		switch r {
 		case '\n':
 			// <newline>
@@ -1741,8 +1746,9 @@ func (l *lexer) linebreak() bool {
 			}
 			l.mark(0)
 		case '`':
-			if hash && l.cmdSubst == '`' {
-				// a comment inside backquotes ends at the closing backquote
+			if bq {
+				// a comment inside backquotes ends at the closing backquote,
+				// which is the first one that is not escaped
 				l.unread()
 				l.comment(hash)
 				l.mark(0)
